@@ -6,6 +6,6 @@ PROP = "C07"
 
 def run(rep, tier):
     return run_core(
-        rep, "C07", ['flat_s', 'chain_s', 'ctrl', 'xmod', 'rel2', 'rel3', 'nest'], ['flat', 'flat3_s', 'chain', 'ctrl', 'xmod_l', 'rel3', 'rel4', 'nest', 'val'], tier,
+        rep, "C07", ['flat_s', 'chain_s', 'ctrl', 'xmod', 'rel2', 'rel3', 'nest'], ['flat', 'flat3_s', 'chain_m', 'ctrl', 'xmod_l', 'rel3', 'rel4', 'nest', 'val'], tier,
         "every design x register state x valuation under eager_deterministic_cc_scheduler: a fully enabled transaction that does not run must have a statically conflicting transaction (reference conflict relation computed from syntax: join at an exclusive method on non-exclusive paths, or add_conflict) running in the same cycle; a spurious conflict edge in the library therefore shows up as a wasted cycle; non-trivial = valuations in which an enabled transaction is blocked by a running conflicting one",
         scheds=("eager",), floors={"designs_simulated": 500, "transitions": 100000, "nt_blocked_by_conflict": 10000})
